@@ -42,6 +42,8 @@ type FuncContract struct {
 	IsIface      bool
 	Trusted      bool // contract assumed at call sites, body not verified (listed in evidence)
 	LockFree     bool
+	GhostVars    []*GhostVar
+	Afters       []*GhostUpdate
 	MakeChans    map[int][]*Clause // ghost facts fixed at the n-th make(chan) of the function
 }
 
@@ -71,6 +73,20 @@ type PkgContracts struct {
 	Lemmas   []*Lemma
 	ChanInvs []*ChanInv
 	Relies   map[string][]*Clause
+	CancelOf map[string]string // "T.cancelField" -> ctx field
+}
+
+// GhostVar is a function-local ghost variable; GhostUpdate assigns it at an anchor.
+type GhostVar struct {
+	Name string
+	Type string
+	Init *Clause
+}
+
+type GhostUpdate struct {
+	Anchor string
+	Var    string
+	Expr   *Clause
 }
 
 // ChanInv: every value v sent on a channel ch whose element type is Elem satisfies Clause.
@@ -144,7 +160,7 @@ func ParseContracts(dir, pkgPath string) (*PkgContracts, error) {
 	if err != nil {
 		return nil, err
 	}
-	pc := &PkgContracts{PkgPath: pkgPath, Dir: dir, File: file, Funcs: map[string]*FuncContract{}, TypeInvs: map[string][]*Clause{}, TypeAssumes: map[string][]*Clause{}, Ghosts: map[string]*GhostFunc{}, Closed: map[string]bool{}, Defines: map[string]*Define{}, Pure: map[string]bool{}, Relies: map[string][]*Clause{}}
+	pc := &PkgContracts{PkgPath: pkgPath, Dir: dir, File: file, Funcs: map[string]*FuncContract{}, TypeInvs: map[string][]*Clause{}, TypeAssumes: map[string][]*Clause{}, Ghosts: map[string]*GhostFunc{}, Closed: map[string]bool{}, Defines: map[string]*Define{}, Pure: map[string]bool{}, Relies: map[string][]*Clause{}, CancelOf: map[string]string{}}
 	var cur *FuncContract
 	var curLemma *Lemma
 	lines := strings.Split(string(data), "\n")
@@ -324,6 +340,13 @@ func ParseContracts(dir, pkgPath string) (*PkgContracts, error) {
 				c.Props = cur.Props
 			}
 			cur.Loops[n] = append(cur.Loops[n], c)
+		case "cancelof":
+			// cancelof T.f: g   -- calling the function value x.f cancels the context x.g
+			i := strings.Index(rest, ":")
+			head := strings.TrimSpace(rest[:i])
+			dot := strings.Index(head, ".")
+			pc.CancelOf[head[:dot]+"."+head[dot+1:]] = strings.TrimSpace(rest[i+1:])
+			cur = nil
 		case "rely":
 			// rely T: two-state predicate that every other goroutine preserves on objects of type T
 			// (assumed across Cond.Wait, where the lock is released; the matching guarantee is
@@ -381,6 +404,41 @@ func ParseContracts(dir, pkgPath string) (*PkgContracts, error) {
 			}
 			anchor := strings.Join(strings.Fields(rest[:i]), " ")
 			cur.Asserts[anchor] = append(cur.Asserts[anchor], c)
+		case "ghostvar":
+			// ghostvar <name> <type> = <init expr>   (function-local ghost variable)
+			if cur == nil {
+				return nil, fmt.Errorf("%s:%d: ghostvar outside func", file, l.no)
+			}
+			f := strings.Fields(rest)
+			eqi := strings.Index(rest, "=")
+			if len(f) < 4 || eqi < 0 {
+				return nil, fmt.Errorf("%s:%d: ghostvar <name> <type> = <expr>", file, l.no)
+			}
+			c, err := mkClause(kw, props, strings.TrimSpace(rest[eqi+1:]), l.no)
+			if err != nil {
+				return nil, err
+			}
+			cur.GhostVars = append(cur.GhostVars, &GhostVar{Name: f[0], Type: f[1], Init: c})
+		case "after":
+			// after <anchor>: <ghostvar> = <expr>    anchor = call <substr> | recv <substr> | send
+			if cur == nil {
+				return nil, fmt.Errorf("%s:%d: after outside func", file, l.no)
+			}
+			i := strings.Index(rest, ":")
+			if i < 0 {
+				return nil, fmt.Errorf("%s:%d: after <anchor>: <var> = <expr>", file, l.no)
+			}
+			body := strings.TrimSpace(rest[i+1:])
+			eqi := strings.Index(body, "=")
+			if eqi < 0 {
+				return nil, fmt.Errorf("%s:%d: after <anchor>: <var> = <expr>", file, l.no)
+			}
+			c, err := mkClause(kw, props, strings.TrimSpace(body[eqi+1:]), l.no)
+			if err != nil {
+				return nil, err
+			}
+			anchor := strings.Join(strings.Fields(rest[:i]), " ")
+			cur.Afters = append(cur.Afters, &GhostUpdate{Anchor: anchor, Var: strings.TrimSpace(body[:eqi]), Expr: c})
 		case "makechan":
 			// makechan N assume P(ch)
 			if cur == nil {
